@@ -201,13 +201,13 @@ Proof.
   destruct (ds =? 0); cbn [app]; repeat tstepf Sf;
     (rewrite <- (app_nil_r (map Free _)); apply T_frees; [intro b; specialize (P b); destruct uniq, fwd; cnt; lia|]; apply T_nil; intro b; specialize (P b); destruct uniq, top, fwd; cnt; lia).
 Qed.
-Lemma ltbl_remove_sound g fwd key k : sound gblocks (gblocks g) (script_ltbl_remove g fwd key) k.
+Lemma ltbl_remove_sound g fwd key own k : sound gblocks (gblocks g) (script_ltbl_remove g fwd key own) k.
 Proof.
   destruct g as [h l0]. unfold sound, script_ltbl_remove. cbn [els hdr].
   assert (P := fun b => count_flat_filter b eblocks (keyis key) l0).
   destruct (filter (keyis key) l0) as [|x gone] eqn:F; [fin|]. cbn [evs st']. eexists.
-  rewrite <- (app_nil_r (map Free _)); apply T_frees; [intro b; specialize (P b); destruct fwd; cnt; revert P; cnt; lia|].
-  apply T_nil; intro b; specialize (P b); destruct fwd; cnt; revert P; cnt; lia.
+  rewrite <- (app_nil_r (map Free _)); apply T_frees; [intro b; specialize (P b); rewrite count_flat_own_last; destruct fwd; cnt; revert P; cnt; lia|].
+  apply T_nil; intro b; specialize (P b); rewrite count_flat_own_last; destruct fwd; cnt; revert P; cnt; lia.
 Qed.
 
 (* getmulti: loop invariant = the container's blocks (c0, untouched) + the result array + the value copies collected so far *)
